@@ -458,7 +458,7 @@ def tdb_rules(ctx, A):
     g4 = []
     for g in gs:
         cp = cmp_parts(g.pred)
-        if g.kind == 'reject' and cp and cp[1][0] == 'bin' and cp[1][1] == 'Rem' and is_int(cp[2], 0) and cp[0] == 'Ne':
+        if g.kind == 'reject' and cp and cp[1][0] == 'bin' and cp[1][1] == 'Rem' and is_int(cp[2], 0) and cp[0] in ('Ne', 'Gt'):
             if strip(cp[1][2]) == strip(S) and isA(cp[1][3]):
                 g4.append(g)
     ctx.ob(['C02', 'C03'], 'R-GUARD', 'G4|size-multiple-of-alignment', len(g4) == 1, 'size % alignment != 0 ⇒ Err on the very size and alignment that are returned', g4[0].where() if g4 else where)
@@ -468,7 +468,7 @@ def tdb_rules(ctx, A):
     g2 = []
     for g in gs:
         cp = cmp_parts(g.pred)
-        if g.kind == 'reject' and cp and cp[1][0] == 'bin' and cp[1][1] == 'Rem' and is_int(cp[2], 0) and cp[0] == 'Ne':
+        if g.kind == 'reject' and cp and cp[1][0] == 'bin' and cp[1][1] == 'Rem' and is_int(cp[2], 0) and cp[0] in ('Ne', 'Gt'):
             rem = cp[1]
             if find_calls(rem[3], 'Type::alignment') and rem[2][0] == 'var':
                 g2.append((g, rem))
